@@ -78,10 +78,13 @@ def add_unit(kind):
         args = [a, coord]
         charge = "absent"
         if kind == "Molecule":
-            charge = V.choose(["given", "omitted"], "charge")
+            charge = V.choose(["given", "omitted", "explicit-None"], "charge")
             if charge == "given":
                 charge = V.sym("q", "real")
                 args.append(charge)
+            elif charge == "explicit-None":
+                args.append(None)             # "no charge known": the row must still be a number
+                charge = "omitted"
         V.witness(lambda ev: {"op": "add_atom", "kind": kind, "k": k, "coord_len": ncoord,
                               "charge": "omitted" if charge == "omitted" else "given", "signature": f"add_atom/{kind}"})
         V.cover()
@@ -274,11 +277,21 @@ def append_bond_unit(variant):
             new = [b1, b2]
         else:
             b2 = M.mk_bond(V, "nb2", atoms[0], atoms[2])
-            out = V.method(m, "extend_bonds", [ListV([b1, b2])], qual=f"{M.CLS['Connectivity']}.extend_bonds")
+            # extend_bonds takes any iterable: a list, or a one-shot iterator (generator / map), which can be walked only once
+            how = V.choose(["list", "one-shot-iterator"], "iterable")
+            arg = ListV([b1, b2]) if how == "list" else IterV(iter([b1, b2]))
+            out = V.method(m, "extend_bonds", [arg], qual=f"{M.CLS['Connectivity']}.extend_bonds")
             new = [b1, b2]
         V.ensure("post/returns", z3.BoolVal(out.returned))
         if out.returned:
             V.ensure("post/bonds-appended-in-order", z3.BoolVal(m.fields["_bonds"].items == before["bonds"] + new))
+            okp = True
+            for b_ in new:
+                try:
+                    okp = okp and I.getattr_(b_, "parent") is m
+                except PyExc:
+                    okp = False
+            V.ensure("post/new-bonds-belong-to-the-molecule", z3.BoolVal(bool(okp)))
             if not foreign:
                 V.ensure("post/atoms-untouched", z3.BoolVal(m.fields["_atoms"].items == atoms))
             else:
